@@ -14,6 +14,11 @@ Definition zseq (n : Z) : list Z := map Z.of_nat (seq 0 (Z.to_nat n)).
 
 Definition outs_of (cat : list (string * tree)) (n : string) : option (list expr) :=
   match lookup n cat with Some (Leaf [] o) => Some o | _ => None end.
+(* same, whatever assert() preconditions the entry recorded (the statement is then proved without using them) *)
+Definition outs_any (cat : list (string * tree)) (n : string) : option (list expr) :=
+  match lookup n cat with Some (Leaf _ o) => Some o | _ => None end.
+Definition pre_of (cat : list (string * tree)) (n : string) : option (list expr) :=
+  match lookup n cat with Some (Leaf p _) => Some p | _ => None end.
 Definition tree_of (cat : list (string * tree)) (n : string) : option tree := lookup n cat.
 
 (* sum_{k<n} f k, left-associated from 0 *)
